@@ -8,5 +8,9 @@ DeepCases(zzdummy) ==
   LET cells == SetToSeq({<<t, d, sh>> : t \in {"Value", "&Value"}, d \in {1, 64, 100, 126, 127, 128, 129, 130, 200}, sh \in {"arr", "obj", "mix"}})
   IN [i \in DOMAIN cells |-> [e |-> "conv", kind |-> "conv", ty |-> cells[i][1], deep |-> [d |-> cells[i][2], shape |-> cells[i][3]],
                                json |-> JNull, node |-> [k |-> "unit"]]]
-ASSUME ndJsonSerialize(IOEnv.OUT, Cases(0) \o DeepCases(0))
+(* inputs of types that have no specialised conversion: judged by agreement of the feature sets alone *)
+Generics == <<"Vec<i32>", "&Vec<i32>", "BTreeMap<String,i32>", "BTreeMap<u16,String>", "BTreeMap<bool,i32>", "BTreeMap<char,i32>", "HashMap<i64,()>", "Vec<BTreeMap<u8,u8>>",
+              "(i32,String)", "P", "Option<i32>", "Option<()>", "i128", "u128", "i128big", "[u8;2]", "Box<i32>", "char", "f32nan", "f64nan", "f64inf", "f32neginf", "&f64nan", "Vec<f64>", "(BTreeMap<i8,i8>,i8)", "Vec<u128>">>
+GenericCases(zzdummy) == [i \in DOMAIN Generics |-> [e |-> "conv", kind |-> "convgen", ty |-> Generics[i], json |-> JNull, node |-> [k |-> "unit"]]]
+ASSUME ndJsonSerialize(IOEnv.OUT, Cases(0) \o DeepCases(0) \o GenericCases(0))
 =============================================================================
